@@ -22,7 +22,8 @@ CHECKS = {
         "model_checking",
         "E2",
         "exhaustive enumeration of all labelled reference DAGs (n<=5 quick, n<=6 thorough) x explicit-state BFS over "
-        "set/update/copy/export histories on the real Parameters object, bit-exact topological reference evaluator",
+        "set/update/copy/export/edit/restore histories on the real Parameters object, bit-exact topological reference "
+        "evaluator; enumerated real fits monitored at every model evaluation, result and history row",
         "Every dependency graph in every declaration order up to the bound is constructed by every route and driven "
         "through every update history up to the depth bound; all reachable parameter states are compared bit-exactly "
         "with an independent evaluation. Order dependence and staleness are properties of all orderings and histories.",
@@ -32,8 +33,9 @@ CHECKS = {
     "C02": (
         "exploration",
         "E1",
-        "complete t-way enumeration (t=3 quick, t=4 + full product thorough) of a 15-axis scheme-feature space; "
-        "entry-for-entry comparison of the real objective with an independent numpy reference evaluation",
+        "complete t-way enumeration (t=3 quick, t=4 + full product thorough) of a 16-axis scheme-feature space, each "
+        "scheme driven through a short construction history (three optimisers from one scheme); entry-for-entry "
+        "comparison of the real objective with an independent numpy reference evaluation",
         "Every combination of up to t non-default features (linking, axes overlap, index dependence, weights, "
         "scales, several megacomplexes, constraints, relations, penalties, NNLS, full model, layout, groups, label "
         "sets) is built as a real Scheme and its penalty vector compared entry for entry with a reference that "
@@ -78,8 +80,9 @@ CHECKS = {
         "model_checking",
         "E2+E5",
         "explicit-state BFS over objective-evaluation histories (incl. a raising evaluation) on fresh real Optimizers "
-        "with a deep full-state digest; partial-order (conflict-relation) exploration of the prange kernels' source + "
-        "compiled runs under every thread count",
+        "with a deep full-state digest; partial-order (conflict-relation) exploration of the prange kernels' source - by "
+        "name over all shapes and in situ (every numba dispatcher replaced by its source during real objective "
+        "evaluations) + compiled runs under every thread count",
         "For every scheme of the feature enumeration all evaluation sequences up to the depth bound are replayed on a "
         "fresh Optimizer and the penalty compared bit-exactly with a stateless evaluation (the search closes); the "
         "caller's scheme is snapshotted; the parallel kernels' iterations are shown conflict-free for all shapes up to "
@@ -287,8 +290,8 @@ def main():
             {"name": "E1", "path": "vf/core.py", "serves_properties": ["C01", "C02", "C03", "C04", "C05", "C06", "C07", "C08", "C09", "C11", "C13", "C14", "C16", "C17", "C20"], "kind_free_text": "bounded exhaustive input-space enumeration with reference oracles, 16 workers"},
             {"name": "E2", "path": "vf/explore.py", "serves_properties": ["C10", "C12", "C18", "C19"], "kind_free_text": "explicit-state BFS over event histories replayed on fresh real objects, full-state digests"},
             {"name": "E3", "path": "vf/checks/c15.py", "serves_properties": ["C15"], "kind_free_text": "deviation-bounded fault enumerator (all single / pairs of deviations from the fault-free environment), forked watchdog"},
-            {"name": "E5", "path": "vf/prange.py", "serves_properties": ["C10"], "kind_free_text": "partial-order (conflict relation) exploration of numba prange kernels on py_func with recording array proxies"},
-            {"name": "E4", "path": "vf/tlc.py", "serves_properties": ["C19"], "kind_free_text": "TLA+ model explored by TLC; every edge of the dumped state graph replayed against the implementation"},
+            {"name": "E5", "path": "vf/prange.py", "serves_properties": ["C10"], "kind_free_text": "partial-order (conflict relation) exploration of numba prange kernels on py_func with recording array proxies; vf/insitu.py applies it to every dispatcher reached by real objective evaluations"},
+            {"name": "E4", "path": "vf/tlc.py", "serves_properties": ["C18", "C19"], "kind_free_text": "TLA+ model explored by TLC; every edge of the dumped state graph replayed against the implementation"},
         ],
         "checks": checks,
         "notes": "See DESIGN.md. known_findings.json lists recorded defects and fixed: entries.",
